@@ -35,7 +35,7 @@ def envelopes(mm):
         if not n.endswith("Request"):
             n += "Request"
         env[n] = ("request", r["method"], mm.request_type(r))
-        rn = n.replace("Request", "") + "Response"
+        rn = n[: -len("Request")] + "Response"  # the request class name with its suffix swapped
         env[rn] = ("response", r["method"], lit([P("jsonrpc", strlit("2.0")), P("id", ID_T), P("result", r["result"], optional=True), P("error", RESPONSE_ERROR_T, optional=True)]))
     for nt in mm.doc.get("notifications", []):
         n = td_name(nt)
